@@ -89,6 +89,10 @@ def parse_output(out, harnesses):
         if m and r['failed_checks']:
             r['failed_checks'][-1] += f'  [{m.group(1)}:{m.group(2)} in {m.group(3)}]'
             continue
+        m = re.match(r'^CBMC (failed with status|crashed|timed out)(.*)$', ln)
+        if m:
+            r['tool_failure'] = ln.strip()
+            continue
         m = re.match(r'^VERIFICATION:- (SUCCESSFUL|FAILED)(.*)$', ln)
         if m:
             r['verdict'] = m.group(1)
@@ -100,8 +104,8 @@ def parse_output(out, harnesses):
     return res
 
 
-def kill_strays():
-    subprocess.run(['pkill', '-f', 'cbmc'], capture_output=True)
+sys.path.insert(0, os.path.dirname(os.path.abspath(__file__)))
+import procgrp
 
 
 def run_kani(scratch, names, jobs, timeout, extra=None):
@@ -112,15 +116,8 @@ def run_kani(scratch, names, jobs, timeout, extra=None):
     cmd += extra or []
     env = dict(os.environ, CARGO_NET_OFFLINE='true')
     t0 = time.time()
-    try:
-        p = subprocess.run(cmd, cwd=scratch, env=env, capture_output=True, text=True, timeout=timeout)
-        out, to = p.stdout + '\n' + p.stderr, False
-    except subprocess.TimeoutExpired as e:
-        so = e.stdout.decode() if isinstance(e.stdout, bytes) else (e.stdout or '')
-        se = e.stderr.decode() if isinstance(e.stderr, bytes) else (e.stderr or '')
-        out, to = so + '\n' + se, True
-        kill_strays()
-    return out, to, time.time() - t0
+    so, se, _rc, to = procgrp.run(cmd, timeout, cwd=scratch, env=env)
+    return so + '\n' + se, to, time.time() - t0
 
 
 def playback(src_root, h, timeout=600, features=None):
@@ -130,12 +127,10 @@ def playback(src_root, h, timeout=600, features=None):
         cmd = ['cargo', 'kani', '--target-dir', os.path.join(CACHE, 'kani-target'), '--exact', '--harness', full_name(h),
                '-Z', 'concrete-playback', '--concrete-playback=print'] + list(h.get('extra', []))
         env = dict(os.environ, CARGO_NET_OFFLINE='true')
-        try:
-            p = subprocess.run(cmd, cwd=scratch, env=env, capture_output=True, text=True, timeout=timeout)
-        except subprocess.TimeoutExpired:
-            kill_strays()
+        so, _se, _rc, to = procgrp.run(cmd, timeout, cwd=scratch, env=env)
+        if to:
             return None
-        m = re.search(r'```\n(.*?)```', p.stdout, re.S)
+        m = re.search(r'```\n(.*?)```', so, re.S)
         if not m:
             return None
         test = m.group(1)
@@ -240,7 +235,10 @@ def run_sets(sets, src_root, prop, tier):
                         # unwinding assertion failures mean the bound is too small: tool limit, not a violation
                         only_unwind = pr['failed_checks'] and all('unwinding assertion' in c for c in pr['failed_checks'])
                         only_inv = pr['failed_checks'] and all('[inv]' in c for c in pr['failed_checks'])
-                        if only_unwind:
+                        if not pr['failed_checks'] and (pr.get('tool_failure') or pr['checks_total'] == 0):
+                            # CBMC was killed / crashed / ran out of memory: no property was reported as failed - a tool failure, not a violation
+                            r.update(status='undecided', reason='back end did not finish: ' + (pr.get('tool_failure') or 'FAILED without any failed check'))
+                        elif only_unwind:
                             r.update(status='undecided', reason='unwinding bound too small: ' + pr['failed_checks'][0])
                         elif only_inv:
                             # the representation invariant is a proof device, not part of the property
